@@ -81,22 +81,64 @@ pub fn cell(spec: &Value) -> Value {
         Some(a) => a.iter().map(|x| x.as_u64().unwrap() as usize).collect(),
         None => (0..NTOK).collect(),
     };
-    let mut stack: Vec<Vec<usize>> = vec![prefix.clone()];
+    // second family: names = up to `segs` separator-carrying segments followed by one leaf (reaches e.g. sub/../../x
+    // with few tokens)
+    let seg_family = spec["family"] == "segments";
+    let segments: Vec<String> = vec!["/".into(), "\\".into(), "../".into(), "..\\".into(), "./".into(), "sub/".into(), "sub\\".into()];
+    let leaves: Vec<String> = vec!["a.txt".into(), "b.txt".into(), "outside.txt".into(), "new.txt".into(), "secret.txt".into(), "..".into(), "srv-evil/secret.txt".into(), "up/old.txt".into()];
+    let mut seg_names: Vec<String> = vec![];
+    if seg_family {
+        let first = spec["first_seg"].as_u64().unwrap() as usize;
+        let segs = spec["segs"].as_u64().unwrap() as usize;
+        // all segment strings of length 1..=segs starting with `first`
+        let mut frontier: Vec<String> = vec![segments[first].clone()];
+        let mut all: Vec<String> = frontier.clone();
+        for _ in 1..segs {
+            let mut next = vec![];
+            for f in &frontier {
+                for s2 in &segments {
+                    next.push(format!("{f}{s2}"));
+                }
+            }
+            all.extend(next.iter().cloned());
+            frontier = next;
+        }
+        for a in &all {
+            for l in &leaves {
+                seg_names.push(format!("{a}{l}"));
+            }
+        }
+    }
+    let mut stack: Vec<Vec<usize>> = if seg_family { vec![] } else { vec![prefix.clone()] };
+    let mut seg_iter = seg_names.into_iter();
     let mut outcomes: std::collections::BTreeSet<u64> = Default::default();
     let mut sampled = false;
     let budget = Budget::new();
-    while let Some(idx) = stack.pop() {
+    loop {
+        let (idx, name): (Vec<usize>, String) = if seg_family {
+            match seg_iter.next() {
+                Some(n) => (vec![0; 3], n),
+                None => break,
+            }
+        } else {
+            match stack.pop() {
+                Some(i) => {
+                    let n: String = i.iter().map(|k| toks[*k].as_str()).collect();
+                    (i, n)
+                }
+                None => break,
+            }
+        };
         if budget.over(&mut c) {
             break;
         }
-        if idx.len() < prefix.len() + more {
+        if !seg_family && idx.len() < prefix.len() + more {
             for &t in allowed.iter().rev() {
                 let mut n = idx.clone();
                 n.push(t);
                 stack.push(n);
             }
         }
-        let name: String = idx.iter().map(|i| toks[*i].as_str()).collect();
         for write in [false, true] {
             c.executions += 1;
             c.states += 1;
@@ -208,6 +250,10 @@ pub fn check(tier: Tier) -> Outcome {
                 cells.push(json!({"srv": s.to_json(), "prefix": [i, j], "more": depth - 2}));
             }
         }
+        // segment family: <= 3 (thorough 5) separator-carrying segments + a leaf
+        for first_seg in 0..7 {
+            cells.push(json!({"srv": s.to_json(), "prefix": [], "more": 0, "family": "segments", "first_seg": first_seg, "segs": if tier == Tier::Quick { 3 } else { 5 }}));
+        }
         if tier == Tier::Thorough {
             // depth 5/6 on the separator/dot sub-alphabet
             let sub = [0usize, 1, 2, 3, 4, 5, 14];
@@ -222,7 +268,7 @@ pub fn check(tier: Tier) -> Outcome {
     let res = run_cells("c03", cells, &crate::pool_opts(tier));
     let mut out = Outcome::new("C03", "model_checking");
     out.absorb(res, n);
-    out.rule = format!("every filename that is a concatenation of <= {depth} tokens over an {NTOK}-token path alphabet ('/', '\\', '..', '.', existing file, subdirectory, file in it, new name, a file one level up, a sibling directory sharing the served directory's name as prefix, absolute sandbox and served paths, empty, '...', '..\\', '%2e%2e', 'up', 'secret.txt'){}, as RRQ and as WRQ, against the real Server on loopback in {} configurations (shared/distinct dirs x overwrite{}); each accepted request is carried to its end. Oracle: served bytes identify a file inside the send directory (every file's content is its own path); tree snapshot before/after shows at most one create/modify inside the receive directory; names a lexical reference resolver puts outside are answered with ERROR and have no effect. non-trivial = requests that transferred data. states = requests, transitions = datagram exchanges.", if tier == Tier::Thorough { ", plus <= 6 tokens over the separator/dot sub-alphabet" } else { "" }, cfgs.len(), if tier == Tier::Thorough { ", plus single-port" } else { "" });
+    out.rule = format!("every filename that is a concatenation of <= {depth} tokens over an {NTOK}-token path alphabet ('/', '\\', '..', '.', existing file, subdirectory, file in it, new name, a file one level up, a sibling directory sharing the served directory's name as prefix, absolute sandbox and served paths, empty, '...', '..\\', '%2e%2e', 'up', 'secret.txt'){}, plus every name made of <= 3 (thorough 5) separator-carrying segments ('/', '\\', '../', '..\\', './', 'sub/', 'sub\\') followed by one of 8 leaves; each as RRQ and as WRQ, against the real Server on loopback in {} configurations (shared/distinct dirs x overwrite{}); each accepted request is carried to its end. Oracle: served bytes identify a file inside the send directory (every file's content is its own path); tree snapshot before/after shows at most one create/modify inside the receive directory; names a lexical reference resolver puts outside are answered with ERROR and have no effect. non-trivial = requests that transferred data. states = requests, transitions = datagram exchanges.", if tier == Tier::Thorough { ", plus <= 6 tokens over the separator/dot sub-alphabet" } else { "" }, cfgs.len(), if tier == Tier::Thorough { ", plus single-port" } else { "" });
     out.assumptions = vec!["Linux path semantics; no symlinks planted inside the served directories".into(), "one server per configuration per shard process is reused across requests (the tree is restored after every request)".into()];
     out
 }
